@@ -11,7 +11,7 @@ From SCC Require Import Base.Sexp Lang.AxSyn Sem.AxSem Sem.AxHeap Model.ParMoves
      Model.Linearize Model.LinCheck Generated.Constants Proof.LinBasics Proof.LinTyping
      Proof.RVSel Proof.SubstGraph Proof.SubstBackends Proof.RVSubst Proof.RVSimAddr Proof.BackendInv Proof.RVSimRel Proof.RVSimStmt
      Proof.RVSimClo Proof.RVHeapAbs Proof.RVHDefs Proof.RVHMem Proof.RVHBridge Proof.HRep Proof.RVKSimRel Proof.RVKSimStmt
-     Proof.RVKSimStore Proof.RVKSimLoad Proof.RVHLayout Proof.RVKFrag Proof.RVKClo Proof.X86HAnn.
+     Proof.RVKSimStore Proof.RVKSimLoad Proof.RVHLayout Proof.RVKLayout Proof.RVKFrag Proof.RVKClo Proof.X86HAnn.
 From SCC Require Model.Heap Proof.HeapMore Proof.HeapTrace Proof.HeapRep.
 Import ListNotations.
 Open Scope Z_scope.
@@ -237,21 +237,16 @@ Proof.
   { rewrite ECTX. split; [exact CO|]. split; [split; [unfold CODE_BASE in GE; lia|exact (SMALL _ _ AL)]|].
     split; [exact (EVEN _ _ AL)|].
     intros k cl0 Hk.
-    assert (NZ : forall c lcl cl lcb cb lcb', In c cls -> r_load env (cl_ctx c) lcl = Ok (cl, lcb) ->
-               rcs (ptypes p) (cl_body c) (cl_ctx c ++ env) lcb = Ok (cb, lcb') -> has_nz (cl ++ cb)).
-    { intros c' lcl cl' lcb cb lcb' Hin _ BD'. apply has_nz_app_r.
-      unfold clauses_k in CH. rewrite forallb_forall in CH. specialize (CH c' Hin).
-      exact (cs_has_nz (ptypes p) _ _ _ _ _ CH BD'). }
-    destruct (dispatch_layout im stop IMG FWD STOPC ENDC (ptypes p) (fun cx lc0 => r_load env cx lc0) (fun cx => cx ++ env)
-                pcl fresh cls c5 lc3 lc' a PLL CC AL NZ k cl0 Hk)
-      as (i & pcc & lcl & cl1 & lcb & cb & lcb' & IX & RF & _ & LD & BD' & PLb).
-    exists i, pcc, lcl, cl1, lcb, cb, lcb'. split; [exact IX|]. split; [exact RF|].
-    split; [exact LD|]. split; [exact BD'|]. split; [exact PLb|].
+    destruct (dispatch_layout_nz im stop IMG FWD STOPC ENDC (ptypes p) (fun cx lc0 => r_load env cx lc0) (fun cx => cx ++ env)
+                pcl fresh cls c5 lc3 lc' a PLL CC AL k cl0 Hk)
+      as (pcc & lcl & cl1 & lcb & cb & lcb' & _ & _ & LD & BD' & PLb & LAND).
+    exists pcc, lcl, cl1, lcb, cb, lcb'. split; [exact LD|]. split; [exact BD'|]. split; [exact PLb|].
     pose proof (nth_error_In _ _ Hk) as Hin.
-    split; [|split].
+    split; [|split; [|split]].
     - unfold lin_clauses_cr in LCc. rewrite forallb_forall in LCc. apply LCc. exact Hin.
     - unfold ann_clauses_cr in ANC. rewrite forallb_forall in ANC. apply ANC. exact Hin.
-    - unfold clauses_k in CH. rewrite forallb_forall in CH. specialize (CH cl0 Hin). exact CH. }
+    - unfold clauses_k in CH. rewrite forallb_forall in CH. specialize (CH cl0 Hin). exact CH.
+    - intros NZ. apply LAND. left. exact NZ. }
   (* the code address *)
   assert (T2 : rtpos Snd (List.length rest) = Ok tmpv) by (apply (rvt_fresh rest (mkb v Cns (Decl tn)) tmpv NDn TV)).
   destruct (snd_write s1 _ _ a T2) as (ET & L14 & HW2 & K2 & V2).
